@@ -70,6 +70,19 @@ type c02World struct {
 	flights map[string][]byte
 	// the object that was delivered last for a registration (by rid), with the parameters it was built with
 	objs map[int]c02Obj
+	// how the NEXT sweep runs (nil: one uninterrupted call)
+	sweep *c02Sweep
+}
+
+// c02Sweep: the sweep is interrupted before its midAt-th removal by a connection that is matched to
+// registration `mark` (markActive), and / or one of its steps arrives while a stand-in holds the registry's
+// own lock ('r' a look-up in progress, 'w' a writer) — from its start (holdAt -1) or from before its
+// holdAt-th removal on, until the step is seen waiting for the lock (c08SweepWith).
+type c02Sweep struct {
+	mark   *c02Reg
+	midAt  int
+	held   byte
+	holdAt int
 }
 
 type c02Obj struct {
@@ -205,16 +218,61 @@ func (w *c02World) applyObj(kind byte, ph, sec int, tr pb.TransportType, prefixI
 	rd := w.rm.registeredDecoys
 	w.advance(now)
 	if kind == 's' {
-		rd.removeOldRegistrations(w.rm.Logger)
-		for _, r := range w.regs {
-			if r.tracked {
-				age := now - r.time
-				if !(age <= c08Active && (r.used || age <= c08Unused)) {
+		expired := func(r *c02Reg) bool {
+			age := now - r.time
+			return !(age <= c08Active && (r.used || age <= c08Unused))
+		}
+		expire := func() {
+			for _, r := range w.regs {
+				if r.tracked && expired(r) {
 					r.tracked, r.valid, r.used = false, false, false
 				}
 			}
 		}
-		w.mops = append(w.mops, fmt.Sprintf("s,%d", now))
+		opt := w.sweep
+		w.sweep = nil
+		if opt == nil {
+			rd.removeOldRegistrations(w.rm.Logger)
+			expire()
+			w.mops = append(w.mops, fmt.Sprintf("s,%d", now))
+			return
+		}
+		head := "sb"
+		if opt.held != 0 {
+			head += fmt.Sprintf("@%c%d", opt.held, opt.holdAt)
+		}
+		w.mops = append(w.mops, fmt.Sprintf("%s,%d", head, now))
+		o := c08SweepOpts{held: opt.held, holdAt: opt.holdAt, midAt: opt.midAt}
+		var mid func()
+		if opt.mark != nil {
+			m := opt.mark
+			mid = func() { w.apply('m', m.ph, m.sec, m.tr, m.prefixID, 0, now) }
+			o.mid = mid
+			o.before = func(handled []*DecoyTimeout) {
+				// the removals the loop has made already decided on the state they found: a connection that
+				// arrives now finds those registrations forgotten
+				var ks []string
+				for _, to := range handled {
+					id := vlib.Hex([]byte(to.identifier))
+					ks = append(ks, to.decoy+","+id)
+					for _, r := range w.regs {
+						if r.tracked && c08Phantoms[r.ph] == to.decoy && r.ident == id && expired(r) {
+							r.tracked, r.valid, r.used = false, false, false
+						}
+					}
+				}
+				if len(ks) > 0 {
+					sort.Strings(ks)
+					w.mops = append(w.mops, "xs,"+strings.Join(ks, ","))
+				}
+			}
+		}
+		res := c08SweepWith(rd, w.rm.Logger, o)
+		w.mops = append(w.mops, "se")
+		expire()
+		if mid != nil && !res.midRan {
+			mid() // the sweep had fewer removals: the connection comes after it
+		}
 		return
 	}
 	r := w.find(ph, sec, tr)
@@ -560,6 +618,7 @@ func c02RunWorld(out *vlib.Out, r *vlib.Rand, nOffers int) {
 					at = c
 				}
 			}
+			w.sweep = c02RandomSweep(w, r)
 			w.apply('s', 0, 0, 0, 0, 0, at)
 			now = (at/60 + 1) * 60
 		}
@@ -742,6 +801,7 @@ func c02LifetimeWorld(out *vlib.Out, r *vlib.Rand) {
 		if at <= now {
 			at = now + 60*int64(r.Range(1, 400)) + 30
 		}
+		w.sweep = c02RandomSweep(w, r)
 		w.apply('s', 0, 0, 0, 0, 0, at)
 		now = (at/60 + 1) * 60
 		offerAll("replay-after-sweep")
@@ -754,6 +814,23 @@ func c02LifetimeWorld(out *vlib.Out, r *vlib.Rand) {
 			offerAll("after-redelivery")
 		}
 	}
+}
+
+// c02RandomSweep: half of the sweeps run as one uninterrupted call; the others are interrupted before any
+// of their removals by a connection on one of the registrations, and / or meet a look-up or a writer inside
+// the registry lock at their start or at one of their removals.
+func c02RandomSweep(w *c02World, r *vlib.Rand) *c02Sweep {
+	if len(w.regs) == 0 || r.Chance(1, 2) {
+		return nil
+	}
+	sw := &c02Sweep{}
+	if r.Chance(2, 3) {
+		sw.mark, sw.midAt = w.regs[r.Intn(len(w.regs))], r.Intn(len(w.regs))
+	}
+	if sw.mark == nil || r.Chance(1, 3) {
+		sw.held, sw.holdAt = []byte{'r', 'w'}[r.Intn(2)], r.Range(-1, len(w.regs)-1)
+	}
+	return sw
 }
 
 func indexOf(l []pb.TransportType, t pb.TransportType) int {
@@ -910,6 +987,30 @@ func TestVerifC02(t *testing.T) {
 		for _, reg := range w.regs {
 			f := w.flight(reg.sec, reg.tr, reg.prefixID, 0)
 			w.offer(out, c02Offer{kind: "genuine", ph: reg.ph, tr: reg.tr, data: f, owner: reg, genuine: true, pid: reg.prefixID})
+		}
+	}
+	// corpus: several registrations expire in ONE sweep; a connection is matched to one of them before the
+	// first / second / third removal of that sweep (that one lives on, every other one must be forgotten:
+	// its genuine flight is no longer accepted); a look-up / a writer is inside the registry lock when the
+	// sweep starts or when one of its removals arrives (the sweep waits, nothing is skipped)
+	for variant := 0; variant < 9; variant++ {
+		w := newC02World(1)
+		w.apply('r', 0, 0, pb.TransportType_Min, 0, 0, 0)
+		w.apply('r', 0, 1, pb.TransportType_Prefix, 3, 0, 0)
+		w.apply('r', 1, 2, pb.TransportType_Obfs4, 0, 0, 0)
+		w.apply('r', 0, 3, pb.TransportType_Min, 0, 0, 0)
+		switch {
+		case variant < 4:
+			w.sweep = &c02Sweep{mark: w.regs[variant%4], midAt: variant % 3}
+		case variant < 7:
+			w.sweep = &c02Sweep{held: []byte{'r', 'w', 'r'}[variant-4], holdAt: variant - 5}
+		default:
+			w.sweep = &c02Sweep{mark: w.regs[1], midAt: 1, held: []byte{'r', 'w'}[variant-7], holdAt: 2}
+		}
+		w.apply('s', 0, 0, 0, 0, 0, 630)
+		for _, reg := range w.regs {
+			f := w.flight(reg.sec, reg.tr, reg.prefixID, 0)
+			w.offer(out, c02Offer{kind: "replay-after-sweep", ph: reg.ph, tr: reg.tr, data: f, owner: reg, genuine: true, pid: reg.prefixID})
 		}
 	}
 	for i, n := 0, vlib.Budget(120, 2400); i < n; i++ {
